@@ -1,8 +1,258 @@
 import Flatland.JsonUtil
-open Lean Flatland.J
+import Flatland.C16
+import Flatland.C16.Tables
+import Flatland.Generated.C16Catalogues
+import Flatland.Spec.C16
+import Flatland.C15
+import Flatland.Run.C15
+open Lean
+open Flatland.J hiding Str
 namespace Flatland.Run.C16
+open Flatland.C16
+abbrev Str := Flatland.C16.Str
 
-/-- JSON case in, JSON observation out (stub until the model of C16 is written). -/
-def run (_j : Json) : Except String Json := .error "model runner for C16 not implemented yet"
+/-! JSON glue for C16 (not part of any theorem). -/
+
+def parseVal (j : Json) : Except String Val :=
+  match j with
+  | .null => pure .none
+  | .str s => pure (.str s.toList)
+  | .bool b => pure (.bool b)
+  | .num _ => do return .int (← j.getInt?)
+  | _ => do return .elem (← cfld j "elem")
+
+def parsePairs (j : Json) : Except String (List (Str × Val)) := do
+  (← arr j).mapM (fun p => do
+    match (← arr p) with
+    | [k, v] => return ((← chars k), (← parseVal v))
+    | _ => throw "bad pair")
+
+def pairsD (j : Json) (k : String) : Except String (List (Str × Val)) :=
+  parsePairs (fldD j k (Json.arr #[]))
+
+def catalogueOf (lang : String) : Except String Catalogue :=
+  match Flatland.Generated.C16.catalogues.find? (fun c => c.lang == lang) with
+  | some c => pure c
+  | none => throw s!"no catalogue {lang}"
+
+/-- a harness-defined ugettext: table lookup, else tag-prefix, else identity; or a shipped locale -/
+def parseU (j : Json) : Except String (Option UTr) := do
+  if isNull j then return none
+  match (fld j "locale").toOption with
+  | some l => do
+    let c ← catalogueOf (← str l)
+    return some c.gettext
+  | none =>
+    let tag ← optOf chars (fldD j "tag" Json.null)
+    let tbl ← (← arr (fldD j "tbl" (Json.arr #[]))).mapM (fun p => do
+      match (← arr p) with
+      | [a, b] => return ((← chars a), (← chars b))
+      | _ => throw "bad tbl")
+    return some (fun s => match tbl.lookup s with
+      | some b => b
+      | none => match tag with
+        | some t => t ++ [':'] ++ s
+        | none => s)
+
+def parseN (j : Json) : Except String (Option NTr) := do
+  if isNull j then return none
+  match (fld j "locale").toOption with
+  | some l => do
+    let c ← catalogueOf (← str l)
+    return some (fun s p n => match c.ngettext s p n with
+      | some r => .ok r
+      | none => .error .typeError)
+  | none =>
+    let tag ← optOf chars (fldD j "tag" Json.null)
+    let rule ← sfld j "rule"
+    return some (fun s p n =>
+      let sing : Bool := match n with
+        | .int i => if rule == "gt1" then decide (i ≤ 1) else i == 1
+        | _ => false
+      let chosen := if sing then s else p
+      .ok (match tag with | some t => t ++ [':'] ++ chosen | none => chosen))
+
+def parseSlot {α} (f : Json → Except String (Option α)) (j : Json) : Except String (Slot α) := do
+  match j with
+  | .str "absent" => return .absent
+  | .null => return .absent
+  | _ => return .present (← f (← fld j "v"))
+
+structure ParsedState where
+  target : Option Target
+  u : StateSlots UTr
+  n : StateSlots NTr
+  items : List (Str × Val)
+  attrs : List (Str × Val)
+  kind : String
+
+def itemSlot {α} (kind : String) (s : Slot α) : ItemSlot α :=
+  if kind == "dict" || kind == "objdict" then
+    (match s with | .absent => .keyError | .present v => .found v)
+  else if kind == "seq" then .typeError
+  else .notSubscriptable
+
+def parseState (j : Json) : Except String ParsedState := do
+  if isNull j then
+    return { target := none, u := ⟨.absent, .notSubscriptable⟩, n := ⟨.absent, .notSubscriptable⟩,
+             items := [], attrs := [], kind := "none" }
+  let kind ← sfld j "kind"
+  let items ← pairsD j "items"
+  let attrs ← pairsD j "attrs"
+  let hasAttrs := kind == "obj" || kind == "objdict"
+  let sub := kind == "dict" || kind == "objdict" || kind == "seq"
+  let ua ← parseSlot parseU (fldD j "u_attr" Json.null)
+  let ui ← parseSlot parseU (fldD j "u_item" Json.null)
+  let na ← parseSlot parseN (fldD j "n_attr" Json.null)
+  let ni ← parseSlot parseN (fldD j "n_item" Json.null)
+  let items' := if kind == "dict" || kind == "objdict" then items else []
+  let attrs' := if hasAttrs then attrs else []
+  return { target := some { subscriptable := sub, items := items', attrs := attrs' },
+           u := ⟨if hasAttrs then ua else .absent, itemSlot kind ui⟩,
+           n := ⟨if hasAttrs then na else .absent, itemSlot kind ni⟩,
+           items := items', attrs := attrs', kind := kind }
+
+structure ParsedElem where
+  target : Target
+  u : AncSlots UTr
+  n : AncSlots NTr
+  kind : String
+
+def parseElem (j : Json) : Except String ParsedElem := do
+  let kind ← sfld j "kind"
+  let attrs ← pairsD j "attrs"
+  let items ← pairsD j "items"
+  let ui ← parseSlot parseU (fldD j "u_inst" Json.null)
+  let uc ← parseU (fldD j "u_cls" Json.null)
+  let ni ← parseSlot parseN (fldD j "n_inst" Json.null)
+  let nc ← parseN (fldD j "n_cls" Json.null)
+  return { target := { subscriptable := kind != "scalar",
+                       items := if kind == "dict" then items else [], attrs := attrs },
+           u := ⟨ui, uc⟩, n := ⟨ni, nc⟩, kind := kind }
+
+def parseMsg (j : Json) : Except String Msg := do
+  match (← sfld j "t") with
+  | "plain" => return .plain (← cfld j "s")
+  | "plural" => return .plural (← cfld j "s") (← cfld j "p") (← cfld j "n")
+  | t => throw s!"bad msg {t}"
+
+def raiseJson (r : Except Raise α) : Json :=
+  match r with
+  | .ok _ => Json.null
+  | .error e => Json.str e.name
+
+def lookupFn (l : List (Str × Val)) : Str → Option Val := fun k => l.lookup k
+
+def runSyn (j : Json) : Except String Json := do
+  let msg ← parseMsg (← fld j "msg")
+  let kwargs ← pairsD j "kwargs"
+  let st ← parseState (fldD j "state" Json.null)
+  let vattrs ← pairsD j "vattrs"
+  let chain ← (← afld j "chain").mapM parseElem
+  let b := fldD j "builtins" Json.null
+  let ub ← parseSlot parseU (fldD b "u" Json.null)
+  let nb ← parseSlot parseN (fldD b "n" Json.null)
+  let pre ← (← arr (fldD j "pre_errors" (Json.arr #[]))).mapM chars
+  let elemT := (chain.head?.map (·.target)).getD default
+  let targets : List Target :=
+    [{ subscriptable := true, items := kwargs, attrs := [] }] ++ st.target.toList ++
+    [{ subscriptable := false, items := [], attrs := vattrs }, elemT]
+  let env : Env := { targets := targets, uState := st.u, nState := st.n,
+                     uAnc := chain.map (·.u), nAnc := chain.map (·.n),
+                     uBuiltin := ub, nBuiltin := nb }
+  let res := expandMessage env msg
+  let callable ← bool (fldD j "callable" (Json.bool false))
+  let errs := match noteError env pre msg callable with
+    | .ok l => l
+    | .error _ => pre
+  -- spec B, where its hypotheses hold: no element *item* shadows (KF-C16-a), no list-like
+  -- state (D-C16-1), no ungettext in play
+  let src : Spec.Sources := {
+    kwargs := lookupFn kwargs, stateItems := lookupFn st.items, stateAttrs := lookupFn st.attrs,
+    validatorAttrs := lookupFn vattrs, elementAttrs := lookupFn elemT.attrs }
+  let specU : Option UTr := Spec.transformer
+    (match st.u.attr with | .present v => some v | .absent => none)
+    (match st.u.item with | .found v => some v | _ => none)
+    (chain.map (fun e => e.u.resolved))
+    (match ub with | .present v => some v | .absent => none)
+  let nFound := match findTransformer env.nState env.nAnc env.nBuiltin with
+    | .ok (some _) => true
+    | _ => false
+  let inScope := st.kind != "seq" && elemT.items.isEmpty &&
+    (match msg with | .plain _ => true | .plural _ _ _ => !nFound)
+  let specRes : Option Str := match msg with
+    | .plain s => Spec.expandPlain specU src s
+    | .plural s p k => Spec.expandPlural specU src s p k
+  let agrees : Bool :=
+    if !inScope then true
+    else match res, specRes with
+      | .ok a, some b => a == b
+      | .error .valueError, _ => true      -- count text that is not a number: outside B
+      | .error _, none => true
+      | _, _ => false
+  return obj [("raise", raiseJson res),
+    ("result", match res with | .ok s => ofChars s | .error _ => Json.null),
+    ("errors", ofList ofChars errs),
+    ("spec_agrees", Json.bool agrees)]
+
+/-- a real built-in validator (the C15 model decides the verdict and the `note_error` call)
+    under a shipped locale placed on the state, the element, its root or builtins -/
+def runBuiltin (j : Json) : Except String Json := do
+  let c ← fld j "c15"
+  let v ← Flatland.Run.C15.parseV (← fld c "v")
+  let e ← Flatland.Run.C15.parseView (← fld c "view")
+  let pre ← (← arr (fldD c "pre_errors" (Json.arr #[]))).mapM chars
+  let langJ := fldD j "lang" Json.null
+  let place ← sfld j "place"
+  let withN ← bool (fldD j "with_n" (Json.bool true))
+  let u : Option UTr ← if isNull langJ then pure none else parseU (obj [("locale", langJ)])
+  let n : Option NTr ← if isNull langJ || !withN then pure none else parseN (obj [("locale", langJ)])
+  let sl {α} (x : Option α) : Slot α := match x with | some f => .present (some f) | none => .absent
+  let noSt {α} : StateSlots α := ⟨.absent, .notSubscriptable⟩
+  let stateTarget : List Target :=
+    if place == "state-dict" then [{ subscriptable := true, items := [], attrs := [] }]
+    else if place == "state-obj" then [{ subscriptable := false, items := [], attrs := [] }]
+    else []
+  let uState : StateSlots UTr :=
+    if place == "state-dict" then ⟨.absent, match u with | some f => .found (some f) | none => .keyError⟩
+    else if place == "state-obj" then ⟨sl u, .notSubscriptable⟩ else noSt
+  let nState : StateSlots NTr :=
+    if place == "state-dict" then ⟨.absent, match n with | some f => .found (some f) | none => .keyError⟩
+    else if place == "state-obj" then ⟨sl n, .notSubscriptable⟩ else noSt
+  let uAnc : List (AncSlots UTr) :=
+    if place == "element" then [⟨sl u, none⟩]
+    else if place == "root" then [⟨.absent, none⟩, ⟨sl u, none⟩] else [⟨.absent, none⟩]
+  let nAnc : List (AncSlots NTr) :=
+    if place == "element" then [⟨sl n, none⟩]
+    else if place == "root" then [⟨.absent, none⟩, ⟨sl n, none⟩] else [⟨.absent, none⟩]
+  let uB : Slot UTr := if place == "builtins" then sl u else .absent
+  let nB : Slot NTr := if place == "builtins" then sl n else .absent
+  let res : Except Raise (Bool × List Str) := do
+    let (b, note) ← Flatland.C15.verdict v e
+    match note with
+    | none => pure (b, pre)
+    | some nt =>
+      match Flatland.C15.messageOf Flatland.Generated.C16.builtinMessages v.className nt.key with
+      | none => .error .attributeError
+      | some msg =>
+        let base := Flatland.C15.envOf v e nt.info
+        let targets := match base.targets with
+          | kw :: rest => kw :: (stateTarget ++ rest)
+          | [] => []
+        let env : Env := { targets := targets, uState := uState, nState := nState,
+                           uAnc := uAnc, nAnc := nAnc, uBuiltin := uB, nBuiltin := nB }
+        let errs ← noteError env pre msg
+        pure (b, errs)
+  match res with
+  | .error r => return obj [("raise", Json.str r.name), ("verdict", Json.null), ("errors", ofList ofChars pre)]
+  | .ok (b, errs) =>
+    return obj [("raise", Json.null), ("verdict", Json.bool b), ("errors", ofList ofChars errs)]
+
+def run (j : Json) : Except String Json := do
+  let kind ← sfld j "k"
+  match kind with
+  | "syn" => runSyn j
+  | "builtin" => runBuiltin j
+  | k => throw s!"C16: unknown case kind {k}"
 
 end Flatland.Run.C16
